@@ -329,6 +329,31 @@ def tuple_assignments(fn) -> int:
         i = 0
         while i < len(lst):
             st = lst[i]
+            # first, *rest = X   ->   first = X[0]; rest = X[1:]        (*init, last = X likewise)
+            if isinstance(st, ast.Assign) and len(st.targets) == 1 and isinstance(st.targets[0], ast.Tuple) and isinstance(st.value, ast.Name) \
+                    and sum(isinstance(t, ast.Starred) for t in st.targets[0].elts) == 1 \
+                    and all(isinstance(t, ast.Name) or (isinstance(t, ast.Starred) and isinstance(t.value, ast.Name)) for t in st.targets[0].elts) \
+                    and st.value.id not in {(t.value.id if isinstance(t, ast.Starred) else t.id) for t in st.targets[0].elts}:
+                elts = st.targets[0].elts
+                k = next(i_ for i_, t in enumerate(elts) if isinstance(t, ast.Starred))
+                after = len(elts) - k - 1
+                new = []
+                for j, t in enumerate(elts):
+                    if isinstance(t, ast.Starred):
+                        sl = ast.Slice(lower=ast.Constant(value=k) if k else None, upper=ast.UnaryOp(op=ast.USub(), operand=ast.Constant(value=after)) if after else None, step=None)
+                        name = t.value.id
+                    else:
+                        idx = j if j < k else j - len(elts)
+                        sl = ast.Constant(value=idx) if idx >= 0 else ast.UnaryOp(op=ast.USub(), operand=ast.Constant(value=-idx))
+                        name = t.id
+                    val = ast.Subscript(value=ast.Name(id=st.value.id, ctx=ast.Load()), slice=sl, ctx=ast.Load())
+                    new.append(ast.copy_location(ast.Assign(targets=[ast.Name(id=name, ctx=ast.Store())], value=val), st))
+                for n in new:
+                    ast.fix_missing_locations(n)
+                lst[i:i + 1] = new
+                i += len(new)
+                done += 1
+                continue
             if isinstance(st, ast.Assign) and len(st.targets) == 1 and isinstance(st.targets[0], ast.Tuple) and isinstance(st.value, ast.Tuple) \
                     and len(st.targets[0].elts) == len(st.value.elts) and all(isinstance(t, ast.Name) for t in st.targets[0].elts) \
                     and not any(isinstance(v, ast.Starred) for v in st.value.elts):
@@ -351,6 +376,18 @@ def tuple_assignments(fn) -> int:
                     done += 1
                     continue
             i += 1
+    return done
+
+
+def negated_branches(fn) -> int:
+    """if not c: A else: B   ->   if c: B else: A      (one polarity for two-way branches; elif chains are left alone)"""
+    done = 0
+    for n in ast.walk(fn):
+        if isinstance(n, ast.If) and n.orelse and isinstance(n.test, ast.UnaryOp) and isinstance(n.test.op, ast.Not) \
+                and not (len(n.orelse) == 1 and isinstance(n.orelse[0], ast.If)) and not (len(n.body) == 1 and isinstance(n.body[0], ast.If)):
+            n.test = n.test.operand
+            n.body, n.orelse = n.orelse, n.body
+            done += 1
     return done
 
 
@@ -411,6 +448,7 @@ def apply(tree: ast.Module) -> int:
     for node in ast.walk(tree):
         if isinstance(node, FuncDef):
             done += tuple_assignments(node)
+            done += negated_branches(node)
             done += conditional_assignments(node)
             done += accumulate_loops(node)
             done += copy_propagation(node)
